@@ -150,6 +150,13 @@ def generate(seed, tier="quick"):
         kinds.append("externals")
         if erng.random() < 0.5:
             approved = erng.choice([["create", "trim"], ["fix", "trim"], list(CATS), ["create", "fix", "trim"]])
+    urng = sub(seed, "own-external")
+    if driver == "plugin" and "externals" not in kinds and urng.random() < 0.15:
+        # the project has a function of its own with the name `external`, called with a string constant: not a reference to outsourced data
+        f = prog["files"][0]
+        f["header"].setdefault("pre", []).extend(["def external(name):  # the project's own helper", "    return 'data/' + name", "",
+                                                  f"CONFIG = external({urng.choice(['settings', 'data/cfg.json', 'e1.json', 'x*y'])!r})"])
+        kinds.append("own-function-named-external")
     W.sprinkle_uni(prog, sub(seed, "uni"), 0.12)
     start = None
     if driver == "plugin":
